@@ -36,8 +36,9 @@ inline orc::V gen_log_spectrum(Draw &d, int r, double decades) {
 
 // Enforce the preprocessing domain on the columns of X for a scaling option:
 // sample sd >= 0.05 (or the column is exactly constant), and for option 5 |mean| >= 0.05.
-inline void enforce_scale_domain(orc::M &X, int option) {
+inline void enforce_scale_domain(orc::M &X, int option, bool always = true) {
   int n = X.r, p = X.c;
+  if (!always && option <= 0) { for (auto &x : X.a) x = (double)x; return; }
   for (int j = 0; j < p; j++) {
     orc::ld s = 0; for (int i = 0; i < n; i++) s += X(i, j);
     orc::ld mu = s / n, ss = 0; for (int i = 0; i < n; i++) ss += (X(i, j) - mu) * (X(i, j) - mu);
@@ -73,6 +74,34 @@ inline orc::V prep_col_bound(const orc::M &X, const orc::Prep &P, int option) {
     b[j] = dd / sc + tmax * dsc / sc + 8 * orc::EPS * tmax;
   }
   return b;
+}
+
+
+// ---- PLS / regression data ------------------------------------------------------------------------
+struct RegData { orc::M X, Y; double noise; };
+// X n x p of full column rank with singular values over <= `decades` decades (+ offsets), Y = X*B + noise
+inline RegData gen_regression(Draw &d, int n, int p, int ny, double decades, int xopt, int yopt, bool allow_correlated = true) {
+  RegData R;
+  orc::V s = gen_log_spectrum(d, p, decades);
+  R.X = gen_lowrank(d, n, p, s, d.real(-1, 2), true);
+  enforce_scale_domain(R.X, xopt, false);
+  for (auto &x : R.X.a) x = (double)x;
+  orc::M B(p, ny); { auto bi = d.ivec((size_t)p * ny, -100, 100); for (size_t i = 0; i < B.a.size(); i++) B.a[i] = (orc::ld)bi[i] / 20; }
+  R.noise = d.pick<double>({0.0, 0.0, 0.01, 0.3, 3.0});
+  orc::M Y = orc::mul(R.X, B);
+  // centred signal scale, so that "noise" is relative to the linear part
+  orc::ld sig = 0; for (int j = 0; j < ny; j++) { orc::ld mu = 0; for (int i = 0; i < n; i++) mu += Y(i, j); mu /= n; for (int i = 0; i < n; i++) sig += (Y(i, j) - mu) * (Y(i, j) - mu); }
+  sig = sqrtl(sig / std::max(1, n * ny)); if (sig == 0) sig = 1;
+  auto g = d.ivec((size_t)n * ny, -1000, 1000);
+  for (int i = 0; i < n; i++) for (int j = 0; j < ny; j++) Y(i, j) += R.noise * sig * (orc::ld)g[(size_t)i * ny + j] / 500;
+  if (allow_correlated && ny >= 2 && d.coin(40)) for (int i = 0; i < n; i++) Y(i, 1) = Y(i, 1) * 0.2L + Y(i, 0);   // correlated responses
+  for (int j = 0; j < ny; j++) { double sc = d.pick<double>({1.0, 1.0, 1e3, 1e-3}); for (int i = 0; i < n; i++) Y(i, j) *= sc; }
+  // non-constant responses inside the preprocessing domain
+  for (int j = 0; j < ny; j++) { bool cst = true; for (int i = 1; i < n; i++) if (Y(i, j) != Y(0, j)) cst = false; if (cst) for (int i = 0; i < n; i++) Y(i, j) += (i % 2) ? 0.5 : -0.5; }
+  enforce_scale_domain(Y, yopt, false);
+  for (auto &x : Y.a) x = (double)x;
+  R.Y = Y;
+  return R;
 }
 
 }  // namespace vf
